@@ -2,6 +2,7 @@ package main
 
 import (
 	"go/token"
+	"os"
 	"go/types"
 	"sort"
 	"strings"
@@ -279,7 +280,11 @@ func isTerminatorCall(in ssa.Instruction) bool {
 
 // Analyze runs the analysis on fn with the given entry facts.
 func (fl *Flow) Analyze(fn *ssa.Function, entry State) *FnResult {
-	return fl.analyze(fn, entry, 0)
+	r := fl.analyze(fn, entry, 0)
+	if d := os.Getenv("PV_DUMP"); d != "" && strings.HasSuffix(QName(fn), d) {
+		dumpFlow(fl.P, r)
+	}
+	return r
 }
 
 func (fl *Flow) analyze(fn *ssa.Function, entry State, depth int) *FnResult {
